@@ -162,7 +162,7 @@ unsafe fn getter(c: *mut ChewingContext, g: usize) -> String {
                 let mut v = vec![];
                 chewing_cand_Enumerate(c);
                 let mut guard = 0;
-                while chewing_cand_hasNext(c) == 1 && guard < 2000 {
+                while chewing_cand_hasNext(c) == 1 && guard < 50_000 {
                     v.push(take(chewing_cand_String(c)));
                     guard += 1;
                 }
@@ -840,7 +840,7 @@ fn check_case(sup: &mut Sup, rng: &mut Rng, n: usize, tier: &str, stats: &mut St
                     what = format!("page count {} for {} candidates at {} per page", pages, total, per);
                 } else if (total > 0 && cur >= pages) || (total == 0 && cur != 0) {
                     what = format!("current page {} of {}", cur, pages);
-                } else if enumerated >= 0 && enumerated != total - cur * per {
+                } else if enumerated >= 0 && enumerated < 50_000 && enumerated != total - cur * per {   // (the worker stops enumerating at 50 000)
                     // chewing_cand_Enumerate starts at the first candidate of the current page
                     what = format!("{} candidates enumerated from page {} of a list of {} at {} per page", enumerated, cur, total, per);
                 }
